@@ -349,7 +349,10 @@ CHECKS = {
              "values are fixed points of the path state; the slow route dummy URL + set_pathname + get_pathname through "
              "C03.aggregator_set_pathname_end_to_end, under a limit that admits the dummy URL and the result), "
              "canonicalize_hostname_shortcut_partial (simple values that is_ipv4 does not claim are what the hostname state on a "
-             "special dummy URL returns; ACE labels under an explicit hypothesis on to_ascii), canonicalize_protocol_is_standard_partial "
+             "special dummy URL returns; ACE labels under an explicit hypothesis on to_ascii) and "
+             "canonicalize_hostname_is_standard_partial (both routes: the slow one - https://dummy.test + set_hostname + get_hostname - "
+             "through the aggregator host setter and parse_host: same failures, same serialised host; IDNA a parameter, the host "
+             "setters' bracket condition, a limit >= 19 that admits the result), canonicalize_protocol_is_standard_partial "
              "with protocolUrl_scheme (for every value shaped like a scheme, parse(value + '://dummy.test') has that scheme in lower case, "
              "whatever IDNA answers) and protocol_slow_route (C01's aggregator parser theorem); pattern_helpers_are_standard "
              "(escape_pattern_string, escape_regexp_string, process_base_url_string, is_ipv6_address, is_absolute_pathname). L1: harness "
@@ -361,9 +364,8 @@ CHECKS = {
              "form, including default-port elision, the special-scheme pathname choice and base-URL inheritance; every "
              "encodable WPT URLPattern vector is replayed.",
         design_ref="DESIGN.md §5 C15", category="proof",
-        note="partial: the slow route of canonicalize_hostname (dummy URL + set_hostname) is compared by the L1 run only (the host "
-             "setter theorem of C03 does not state the returned flag); the pathname theorem assumes a limit >= 15 that admits the "
-             "result; the constructor-string parser / tokenizer / 'process a URLPatternInit' are transcribed in the Python "
+        note="partial: the hostname theorem takes IDNA as a parameter (IdnaAt) and carries the host setters' bracket condition; "
+             "the pathname / hostname theorems assume a limit >= 15 / 19 that admits the dummy URL and the result; the constructor-string parser / tokenizer / 'process a URLPatternInit' are transcribed in the Python "
              "expectation for literal values and exercised through WPT, not modelled in Lean; the hostname callback's dummy "
              "URL is taken to be special (WPT); vectors needing ECMAScript v-mode regex semantics are engine-dependent"),
 
